@@ -889,7 +889,11 @@ Section Runtime.
         * eapply (child_node r v1 l1 a ov1 at_); eauto. unfold target. rewrite Ty. reflexivity.
         * eapply gtarget_node; eauto. unfold gtarget. rewrite Ty. reflexivity.
         * exact Hx.
-      + reflexivity.
+      + apply IHx.
+        * split; [reflexivity|]. left. eapply container_req; eauto. rewrite Ty. reflexivity.
+        * eapply (child_node r v1 l1 a ov1 at_); eauto. unfold target. rewrite Ty. reflexivity.
+        * eapply gtarget_node; eauto. unfold gtarget. rewrite Ty. reflexivity.
+        * exact Hx.
       + apply IHx.
         * split; [reflexivity|]. left. eapply container_req; eauto. rewrite Ty. reflexivity.
         * eapply (child_node r v1 l1 a ov1 at_); eauto. unfold target. rewrite Ty. reflexivity.
